@@ -148,7 +148,7 @@ class E3Check(Check):
         nobj = rng.choice([1, 2, 2, 3])
         big = tier == "thorough" and rng.random() < 0.3
         objs = [gen_object_spec(rng, small=not big) for _ in range(nobj)]
-        if tier == "thorough" and rng.random() < 0.05:
+        if rng.random() < (0.05 if tier == "thorough" else 0.02):
             objs[0]["n"] = rng.randint(65, 200)  # the quantifier's upper end
         # make equal-length companions likely (align / APE need them)
         for k in range(1, nobj):
@@ -350,6 +350,29 @@ class E3Check(Check):
                                       "mix": self.mix, "objects": [A, B],
                                       "steps": steps})
         if self.prop == "C08":
+            # index arrays of every integer width on objects long enough for
+            # narrow types to matter (arange(..., dtype=uint8) and friends)
+            for n, ids, dts in (
+                    (200, [0, 40, 80, 120, 160, 199], ("uint8", "int16",
+                                                       "uint16", "int32")),
+                    (100, [0, 30, 60, 90, 99], ("int8", "uint8")),
+                    (130, [0, 1, 64, 127], ("int8", ))):
+                for dt in dts:
+                    for ctor in ("se3", "xyzquat"):
+                        A = {"ctor": ctor, "stamped": True, "n": n,
+                             "data_seed": 5, "profile": dict(prof, gap=0.0,
+                                                             jump=0.0)}
+                        cases.append({
+                            "kind": "schema_ids", "mix": self.mix,
+                            "objects": [A],
+                            "steps": [
+                                {"op": "read", "uid": "s0", "obj": "o0",
+                                 "view": "positions_xyz"},
+                                {"op": "reduce_to_ids", "uid": "s1",
+                                 "obj": "o0", "ids": ids,
+                                 "ids_kind": "ndarray", "ids_dtype": dt},
+                                {"op": "read", "uid": "s2", "obj": "o0",
+                                 "view": "poses_se3"}]})
             import random
             r = random.Random(808)
             for _ in range(6 if tier == "quick" else 30):
